@@ -147,7 +147,7 @@ Example C04_trace_nonvacuous :
   pre_trace ex_net (prim_pre ex_net) tr (init_state ex_net) /\ 2 <= NN ex_net /\ NoDup (output ex_net).
 Proof.
   cbn zeta. split; [|split; [vm_compute; lia|repeat constructor; cbn; intuition lia]].
-  cbn [pre_trace prim_pre prim_pre0].
+  cbn [pre_trace prim_pre prim_pre1 prim_pre0].
   repeat match goal with
   | |- _ /\ _ => split
   | |- pair_pre _ _ _ _ _ _ _ => unfold pair_pre
